@@ -34,7 +34,7 @@ SrcFileNames   == {"a.c", "b c.c", "x.y.c", "p.h"}
 OtherFileNames == {"m.cc", "n.C", "o.c.bak", "README"}
 PlainDirNames  == {"d", "e f"}
 (* the names a generated tree may use (Level 1: a covering subset) *)
-GenFileNames == IF MaxN <= 3 THEN {"a.c", "b c.c", "p.h", "m.cc", "o.c.bak"} ELSE SrcFileNames \cup OtherFileNames
+GenFileNames == IF MaxN <= 3 THEN {"a.c", "b c.c", "p.h", "m.cc", "o.c.bak", "n.C"} ELSE SrcFileNames \cup OtherFileNames
 GenDirNames  == IF MaxN <= 3 THEN {"e f", "sub.c"} ELSE PlainDirNames \cup {"sub.c"}
 LikeDirNames   == {"sub.c"}                   \* a directory whose own name looks like a source file
 IsSrcName(n) == n \in SrcFileNames \cup LikeDirNames
